@@ -206,6 +206,12 @@ RefFileNames(secs) ==
   IF REFFILES \in DOMAIN d THEN SelectSeq(Split(d[REFFILES], SEMI), LAMBDA f : f # <<>>) ELSE <<>>
 FilesNamed(dir, names) == [i \in 1..Len(names) |-> dir[FileIdx(dir, names[i])].lines]
 AllNamed(dir, names) == \A i \in 1..Len(names) : FileIdx(dir, names[i]) > 0
+\* the [Config] parameters that count: those of the files read automatically, then the -c Config/... lines
+ConfigDict(auto, cli, V) == DictOf(LinesOf(AddLines(ParseFiles(<<>>, auto, V), SelectSeq(cli, IsConfigSpec)), CONFIG))
+\* "GameDir - the root directory of the game's HTML disassembly; if not specified, the base name of the skool file given on
+\*  the skool2html.py command line will be used"
+GAMEDIR == <<71, 97, 109, 101, 68, 105, 114>>
+GameDir(auto, cli, skoolbase, V) == LET d == ConfigDict(auto, cli, V) IN IF GAMEDIR \in DOMAIN d THEN d[GAMEDIR] ELSE skoolbase
 UserSections(auto, dir, cmd, cli, V) ==
   LET s1 == ParseFiles(<<>>, auto, V)
       cfg == AddLines(s1, SelectSeq(cli, IsConfigSpec))
